@@ -54,3 +54,38 @@ func VerifC13NameToPath(maxLen int) {
 	}
 	verifAssert(!strings.HasPrefix(p, "/"), "relative")
 }
+
+// ---- names differing only in letter case address the same manifest ----
+
+var vfLink string
+
+// replacement for (*DiskCache).links: the directory holds one manifest, stored under an arbitrary
+// case variant of the name that is looked up
+func vfLinks(c *DiskCache) func(yield func(string, error) bool) {
+	return func(yield func(string, error) bool) {
+		yield(vfLink, nil)
+	}
+}
+
+func VerifC13CaseLookup(maxLen int) {
+	s := verifNondetString("name", maxLen)
+	np, err := nameToPath(s)
+	if err != nil {
+		return
+	}
+	// the stored spelling: every letter may have the other case
+	b := []byte("manifests/" + np)
+	for i := len("manifests/"); i < len(b); i++ {
+		ch := b[i]
+		letter := ch >= 'a' && ch <= 'z' || ch >= 'A' && ch <= 'Z'
+		if letter && verifNondetBool("flip") {
+			b[i] = ch ^ 0x20
+		}
+	}
+	vfLink = string(b)
+	c := &DiskCache{dir: "/cache"}
+	got, err := c.manifestPath(s)
+	verifReach("looked-up")
+	verifAssert(err == nil, "lookup-succeeds")
+	verifAssert(got == "/cache/"+vfLink, "case-variant-addresses-the-stored-manifest")
+}
